@@ -743,7 +743,18 @@ func c15Case(c *Ctx) {
 			} else if a2, err := r.ReadTopOuts(); err != nil {
 				add("outs-missing", err.Error())
 			} else if got := Canon(r.normFiles(a2)); got != twinOuts {
-				add("outs-differ-after-cosmetic-edit", fmt.Sprintf("%s vs %s", got, twinOuts))
+				oracle := "outs-differ-after-cosmetic-edit"
+				if ed.name == "cosmetic:rename-file-type" {
+					// was the first mrp killed inside post-processing, after it had
+					// moved an output file into outs/ under the old type's extension?
+					crash := crashSeq(r)
+					for _, ev := range vos.W.Events {
+						if ev.Seq < crash && ev.Op == "rename" && strings.HasPrefix(ev.Path2, "ps/outs/") && ev.Err == "" {
+							oracle = "file-type-renamed-after-interrupted-postprocess"
+						}
+					}
+				}
+				add(oracle, fmt.Sprintf("%s vs %s", got, twinOuts))
 			}
 		}
 	}
